@@ -408,4 +408,10 @@ func TestC11(t *testing.T) {
 	h.Run(c, "callbacks", c.N(40000, 160000), genCbCase, cbOracle)
 	c.Rule("identity: Go pool value (46 types x seeds) bound to x and read back through 0-4 of: list element, map member/index, Go id(x), Go variadic idv, script identity functions (fixed, 2-ary, variadic, list-returning), variable, multi-assignment, ternary, parentheses; non-trivial = at least one step; distinct by (type, seed, source)")
 	h.Run(c, "identity", c.N(25000, 100000), genIdCase, idOracle)
+	c.Rule("named: a named slice, integer or map Go type with value- and pointer-receiver methods, bound by pointer, by value, or as a pointer held in a script list / map; 1-4 method calls in a row judged against Go's own calls on a twin (results and the value left behind the pointer); a pointer-receiver method on a by-value binding must be an error; all cases non-trivial")
+	h.Run(c, "named", c.N(6000, 40000), genNamed, oracleNamed)
+	c.Rule("nilbind: 2-4 names bound to nil with Env.Define in one or in two unrelated environments, optionally one more bound after the write; a script writes a value to the first one (through a pointer, a pointer passed to a function, a pointer to the pointer, or by assignment); every other name must still read nil, from the host and from a script; all cases non-trivial")
+	h.Run(c, "nilbind", c.N(3000, 20000), genNilBind, oracleNilBind)
+	c.Rule("parallel: a script function (1-3 parameters; returns its first parameter, their sum, or their joined text) handed to a Go function as func(int64...) interface{} and invoked from 2/4/8 goroutines at once, 200-3000 calls each with arguments unique to the call, GOMAXPROCS 2/4/16; every invocation must return the value computed from its own arguments; non-trivial = at least 2 goroutines")
+	h.Run(c, "parallel", c.N(60, 400), genParallel, oracleParallel)
 }
